@@ -16,6 +16,8 @@ import subprocess
 import sys
 import time
 
+from vf import anchors
+
 HERE = os.path.dirname(os.path.abspath(__file__))
 VERIF = os.path.dirname(HERE)
 PY = "/venv/bin/python"
@@ -226,6 +228,7 @@ def main(argv):
         spec.setdefault("mode", "A")
         spec.setdefault("hashseed", 0)
         spec["repo"] = repo
+        spec["cover_files"] = anchors.files_of(prop)
     max_par = int(os.environ.get("VERIF_JOBS", "16" if tier == "thorough" else "12"))
     timeout_s = getattr(mod, "TIMEOUT", {"quick": 600, "thorough": 3600})[tier]
     done = run_children(prop, specs, repo, srchash, rundir, max_par, timeout_s)
@@ -339,6 +342,7 @@ def main(argv):
     # ---- reach conditions ---------------------------------------------------------------------
     info = {"repo": repo, "tier": tier, "sets": sets, "modes": modes}
     reach = mod.reach(counters, tier, info) if hasattr(mod, "reach") else []
+    reach += anchors.file_reach(prop, info)
     for r in reach:
         r.setdefault("gating", True)
         if not r["ok"] and r["gating"]:
